@@ -26,7 +26,7 @@ package commitlog
 //@   modifies nothing
 //@   ensures result == count(s)
 
-//@ func (*segment).Position serves C09
+//@ func (*segment).Position serves C09, C01, C16, C02
 //@   requires s != nil
 //@   safety
 //@   modifies nothing
@@ -367,6 +367,9 @@ package commitlog
 //@   ensures [entries-len] err == nil ==> len(entries) == len(msgs)
 //@   ensures [entries-nonnil] err == nil ==> (forall j int :: 0 <= j && j < len(entries) ==> entries[j] != nil)
 //@   ensures [entries-offset] err == nil ==> (forall j int :: 0 <= j && j < len(entries) ==> entries[j].Offset == baseOffset + j)
+//@   ensures [first-position] err == nil && len(msgs) >= 1 ==> entries[0].Position == basePos
+//@   loop 1 invariant rangeindex == -1 ==> n == 0
+//@   loop 1 invariant rangeindex >= 0 ==> entries[0].Position == basePos
 //@   ensures [last-offset] err == nil && len(msgs) >= 1 ==> entries[len(entries)-1].Offset == baseOffset + len(msgs) - 1
 //@   ensures [entries-meta] err == nil ==> (forall j int :: 0 <= j && j < len(entries) ==> entries[j].Timestamp == old(msgs[j].Timestamp) && entries[j].LeaderEpoch == old(msgs[j].LeaderEpoch))
 //@   ensures [cc-refused] concurrencyControl && len(msgs) == 1 && old(msgs[0].Offset) != -1 && old(msgs[0].Offset) != baseOffset ==> err != nil
@@ -410,6 +413,13 @@ package commitlog
 //@   ensures [log-kept] forall x *commitLog :: x.vActiveSegment == old(x.vActiveSegment)
 //@   ensures [entries-kept] forall j int :: 0 <= j && j < len(entries) ==> entries[j] == old(entries[j]) && entries[j].Offset == old(entries[j].Offset) && entries[j].LeaderEpoch == old(entries[j].LeaderEpoch)
 
+// AppendMessageSet (replication): the set goes to the active segment as it is AFTER a possible roll, and is indexed at
+// the position where that segment's log file ends
+//@ func (*commitLog).AppendMessageSet serves C01, C02
+//@   returns (offsets, err)
+//@   requires l != nil && l.vActiveSegment != nil
+//@   assumes l.leaderEpochCache != nil && wfEpochs(l.leaderEpochCache) && len(ms) > 28
+//@   call (*commitLog).append requires [written-to-the-active-segment-indexed-where-it-is-written] arg1 == l.vActiveSegment && len(arg3) >= 1 && arg3[0].Position == arg1.position && arg2 == ms
 // append: the offsets returned are the entries' offsets
 //@ func (*commitLog).append serves C01, C16, C02
 //@   returns (offsets, err)
@@ -444,6 +454,7 @@ package commitlog
 //@   ensures [conditional-lands-where-expected] err == nil && l.ConcurrencyControl && len(msgs) == 1 && old(msgs[0].Offset) != -1 ==> offsets[0] == old(msgs[0].Offset)
 //@   ensures [mismatch-refused] old(l.ConcurrencyControl) && len(msgs) == 1 && old(msgs[0].Offset) != -1 && old(msgs[0].Offset) != old(nextOffset(l)) ==> err != nil
 //@   call (*commitLog).append requires [only-when-accepted] err == nil
+//@   call (*commitLog).append requires [written-to-the-active-segment-indexed-where-it-is-written] arg1 == l.vActiveSegment && len(arg3) >= 1 && arg3[0].Position == arg1.position
 //@   ensures [waived-accepted] old(l.ConcurrencyControl) && len(msgs) == 1 && old(msgs[0].Offset) == -1 ==> err != ErrIncorrectOffset
 //@   ensures [expected-accepted] len(msgs) == 1 && old(msgs[0].Offset) == old(nextOffset(l)) ==> err != ErrIncorrectOffset
 
@@ -511,7 +522,7 @@ package commitlog
 //@   requires s != nil
 //@   ensures err == nil ==> c != nil && c.BaseOffset == old(s.BaseOffset)
 // entriesForMessageSet: one index entry per message, the first one for the set's own offset at the given position
-//@ func entriesForMessageSet serves C08
+//@ func entriesForMessageSet serves C08, C01, C02
 //@   ensures [one-per-message] len(ms) > 28 ==> len(result) >= 1
 //@   ensures [nonnil] forall j int :: 0 <= j && j < len(result) ==> result[j] != nil
 //@   ensures [first-entry] len(ms) > 28 ==> result[0].Offset == int64(be64(old(ms), 0)) && result[0].Position == basePos && result[0].LeaderEpoch == be64(old(ms), 16)
